@@ -520,9 +520,23 @@ func (w *World) feeCoin(label string) *sdk.Coin {
 	case x < 50:
 		c := sdk.NewCoin(DenomStake, sdk.NewInt(2_000_000_000_000)) // more than anyone holds
 		return &c
+	case x < 62:
+		// payable amounts around and beyond the 64-bit boundaries (an 18-decimals denom)
+		w.Flags["fee>=2^63"] = true
+		c := sdk.NewCoin(DenomIBC, BigCoinAmount(w, label+"big"))
+		return &c
 	}
 	c := sdk.NewInt64Coin(pickOf(w, label+"d", BankDenoms[:3]), int64(1+w.intn(label+"a", 20_000_000)))
 	return &c
+}
+
+var bigCoinAmounts = []string{"9223372036854775807", "9223372036854775808", "9223372036854775809", "10000000000000000000", "18446744073709551615",
+	"18446744073709551616", "18446744073709551617", "20000000000000000000", "100000000000000000000", "1000000000000000000000000"}
+
+// BigCoinAmount draws a coin amount at or beyond 2^63 (still far below what the accounts hold of the IBC denom).
+func BigCoinAmount(w *World, label string) sdk.Int {
+	x, _ := sdk.NewIntFromString(pickOf(w, label, bigCoinAmounts))
+	return x
 }
 
 func genUpdClassFee(w *World) sdk.Msg {
